@@ -2,7 +2,7 @@
 
 Explicit-state search.  Initial state: a Program with finished producers (float with a missing cell, float without, int, fuzzy
 with/without a missing cell, 2-D fuzzy, out-of-range-free).  Events: add one consumer command (every built-in data command incl.
-PrintVars and CSV EEMSWrite x preset x EVERY choice of inputs among ALL results present so far, single-input and repeated-input
+PrintVars, CSV EEMSWrite and (second family, 2-D producers) NetCDF EEMSWrite x preset x EVERY choice of inputs among ALL results present so far, single-input and repeated-input
 forms of n-ary operators included) and evaluate it; re-read / re-run events.  Invariant in every state: the snapshot (shape,
 element type, mask, bytes of non-missing values) and object identity of every previously produced result is unchanged.
 Depth 2 enumerates all event pairs; at depth 3 (thorough) the third event must consume a result created by an earlier event
@@ -25,6 +25,8 @@ ID = "C09"
 LEVEL = "model_checking"
 CHUNK = 1
 LIBS = ("mpilot.libraries.eems.basic", "mpilot.libraries.eems.csv", "mpilot.libraries.eems.fuzzy", "mc.vlib.const")
+NC_LIBS = ("mpilot.libraries.eems.basic", "mpilot.libraries.eems.netcdf", "mpilot.libraries.eems.fuzzy", "mc.vlib.const")
+MODE = {"libs": "csv"}  # "csv" | "netcdf": which library set (and writer) the current case uses
 RULE = ("states = event histories (consumer additions) replayed on a fresh Program; transitions = one consumer evaluated through "
         "Command.result; invariant = snapshots of all earlier results unchanged; non-trivial = distinct histories whose last event "
         "produced a result or an MPilot error")
@@ -40,6 +42,9 @@ PRODUCERS = [  # name, fuzzy, key
 _PROG = {}
 
 
+NC_PRODUCERS = [("p2", True, "z_2d"), ("q2", False, "f_2d"), ("r2", False, "f_2d_miss"), ("i2", False, "i_2d"), ("y2", True, "z_2d_full")]
+
+
 def _table():
     return {
         "f_miss": lambda: numpy.ma.MaskedArray([-1.0, 0.5, 2.0, 5.0], mask=[False, True, False, False]),
@@ -49,6 +54,9 @@ def _table():
         "z_full": lambda: numpy.ma.MaskedArray([0.5, -1.0, 1.0, 0.0], mask=[False, False, False, False]),
         "z_2d": lambda: numpy.ma.MaskedArray([[-1.0, 0.25], [1.0, -0.5]], mask=[[False, False], [False, True]]),
         "f_2d": lambda: numpy.ma.MaskedArray([[3.0, -1.0], [0.5, 2.0]]),
+        "f_2d_miss": lambda: numpy.ma.MaskedArray([[1.5, 0.0], [-2.0, 4.0]], mask=[[True, False], [False, False]]),
+        "i_2d": lambda: numpy.ma.MaskedArray(numpy.array([[2, -1], [0, 5]], dtype=numpy.int64)),
+        "z_2d_full": lambda: numpy.ma.MaskedArray([[0.5, -1.0], [1.0, 0.0]], mask=[[False, False], [False, False]]),
     }
 
 
@@ -72,11 +80,20 @@ def _new_program(workdir):
     C.TABLE.update(_table())
     # the Program object only holds the command table and the library lookup: one lookup per worker, fresh commands per replay
     if _PROG.get("wd") != workdir:
-        _PROG["p"] = Program(libraries=LIBS, working_dir=workdir)
+        _PROG["p"] = Program(libraries=LIBS if MODE["libs"] == "csv" else NC_LIBS, working_dir=workdir)
         _PROG["wd"] = workdir
+        if MODE["libs"] == "netcdf":
+            from netCDF4 import Dataset
+
+            with Dataset(os.path.join(workdir, "tpl.nc"), "w") as ds:
+                ds.createDimension("y", 2)
+                ds.createDimension("x", 2)
+                ds.createVariable("y", "f8", ("y",))[:] = [0.0, 1.0]
+                ds.createVariable("x", "f8", ("x",))[:] = [0.0, 1.0]
+                ds.createVariable("t", "f8", ("y", "x"))[:] = numpy.zeros((2, 2))
     p = _PROG["p"]
     p.commands = {}
-    for name, fz, key in PRODUCERS:
+    for name, fz, key in (PRODUCERS if MODE["libs"] == "csv" else NC_PRODUCERS):
         p.add_command(C.ConstFZ if fz else C.ConstNF, name, {"Key": key})
         p.commands[name].run()
     return p
@@ -118,7 +135,7 @@ def _apply(p, idx, ev, workdir):
         try:
             with numpy.errstate(all="ignore"):
                 if cmd == "reread":
-                    p.commands[ins[0] if ins[0] in p.commands else "pf"].result
+                    p.commands[ins[0] if ins[0] in p.commands else next(iter(p.commands))].result
                 else:
                     p.run()
             return None, cmd
@@ -127,6 +144,10 @@ def _apply(p, idx, ev, workdir):
     if cmd == "PrintVars":
         args = {"InFieldNames": list(ins), "OutFileName": os.path.join(workdir, "pv_%d.txt" % idx)}
         cls = p.find_command_class("PrintVars")
+    elif cmd == "EEMSWrite" and MODE["libs"] == "netcdf":
+        args = {"OutFieldNames": list(ins), "OutFileName": os.path.join(workdir, "w_%d.nc" % idx), "DimensionFileName": os.path.join(workdir, "tpl.nc"),
+                "DimensionFieldName": "t"}
+        cls = p.find_command_class("EEMSWrite")
     elif cmd == "EEMSWrite":
         args = {"OutFieldNames": list(ins), "OutFileName": os.path.join(workdir, "w_%d.csv" % idx)}
         cls = p.find_command_class("EEMSWrite")
@@ -164,12 +185,19 @@ def cases(tier):
     base = [(n, fz, _table()[k]().shape) for n, fz, k in PRODUCERS]
     evs = list(_consumer_events(base))
     for i, ev in enumerate(evs):
-        yield ("hist", ev, tier)
-    yield ("hist", ("reread", 0, ("pf",)), tier)
+        yield ("hist", ev, tier, "csv")
+    yield ("hist", ("reread", 0, ("pf",)), tier, "csv")
+    # NetCDF library set: 2-D producers, the NetCDF writer among the consumers (first event = every writer form and every fuzzy/non-fuzzy
+    # n-ary and unary command over the 2-D producers)
+    nc_base = [(n, fz, (2, 2)) for n, fz, k in NC_PRODUCERS]
+    for ev in _consumer_events(nc_base):
+        if ev[0] == "EEMSWrite" or ev[1] == 0:
+            yield ("hist", ev, tier, "netcdf")
 
 
 def run(case):
-    _, ev1, tier = case
+    _, ev1, tier, libs = case
+    MODE["libs"] = libs
     ev1 = (ev1[0], ev1[1], tuple(ev1[2]))
     workdir = snapshot.scratch_dir("c09_")
     viols, outcomes = [], {}
@@ -209,6 +237,8 @@ def run(case):
         if oc1 and oc1.startswith("err"):
             nontriv += 1
         depth2 = list(_consumer_events(_results_of(p))) + [("reread", 0, ("c0",)), ("rerun", 0, ())]
+        if libs == "netcdf" and ev1[0] != "EEMSWrite":
+            depth2 = [e for e in depth2 if e[0] in ("EEMSWrite", "reread", "rerun")]  # non-writer pairs are covered by the CSV family
         derived = {n for n in p.commands if n.startswith("c")}
         for ev2 in depth2:
             p2, oc2, snaps2 = replay([ev1, ev2])
